@@ -15,6 +15,24 @@ func vrtLayoutList() []string {
 	return []string{"1s:1s", "1s:2s", "5s:15s", "60s:180s", "1s:2s,2s:6s", "1s:3s,3s:9s", "2s:6s,6s:12s", "60s:120s,120s:360s"}
 }
 
+// vrtChooseHeaderSmall: a reduced family for the path-hungry harnesses in the quick tier.
+func vrtChooseHeaderSmall(method AggregationMethod, xff float32) *Header {
+	if vrt.Tier() == 1 {
+		return vrtChooseHeader(method, xff)
+	}
+	ls := []string{"1s:2s", "5s:15s", "1s:2s,2s:6s", "60s:120s,120s:360s"}
+	txt := ls[vrt.Choose("layout", len(ls))]
+	list, err := ParseArchiveInfoList(txt)
+	if err != nil {
+		panic("harness layout rejected: " + txt)
+	}
+	h, err := NewHeader(method, xff, list)
+	if err != nil {
+		panic("harness layout rejected: " + txt)
+	}
+	return h
+}
+
 func vrtChooseHeader(method AggregationMethod, xff float32) *Header {
 	ls := vrtLayoutList()
 	txt := ls[vrt.Choose("layout", len(ls))]
@@ -46,6 +64,10 @@ func vrtSymbolicImage(h *Header, tag string) ([]byte, *vrtSlots) {
 		vs := make([]Value, n)
 		for j := 0; j < n; j++ {
 			ts[j] = Timestamp(vrt.U32(vrt.N(vrt.N(tag+"T", ai), j)))
+			if j == 0 {
+				// base interval: zero (never written) or any multiple of the step
+				vrt.Assume(int64(ts[j])%int64(a.secondsPerPoint) == 0)
+			}
 			vs[j] = Value(vrt.F64(vrt.N(vrt.N(tag+"V", ai), j)))
 			p := Point{Time: ts[j], Value: vs[j]}
 			img = p.AppendTo(img)
@@ -93,11 +115,25 @@ func refAlign(t Timestamp, step Duration) Timestamp {
 	return Timestamp(refFloorDiv(int64(t), int64(step)) * int64(step))
 }
 
-// vrtAssumeClock: T1/T2 of DESIGN section 3: now < 2^31 and now >= maxRetention + coarsest step.
+// vrtAssumeClock: T2 of DESIGN section 3: the clock is any uint32 instant that is at least one
+// maximum retention (plus two coarsest steps) after the epoch and at least four coarsest steps
+// before the end of the 32-bit range.
 func vrtAssumeClock(h *Header, now Timestamp) {
 	last := h.archiveInfoList[len(h.archiveInfoList)-1]
-	vrt.Assume(int64(now) <= 0x7fffffff-4*int64(last.secondsPerPoint))
+	vrt.Assume(int64(now) <= 0xffffffff-4*int64(last.secondsPerPoint))
 	vrt.Assume(int64(now) >= int64(h.maxRetention)+2*int64(last.secondsPerPoint))
+}
+
+// vrtAssumeNear: T1 of DESIGN section 3: instant t (if non-zero) lies within 2^31-1 seconds of
+// the clock, with a margin of one maximum retention plus four coarsest steps (Duration is int32).
+func vrtAssumeNear(h *Header, now, t Timestamp) {
+	last := h.archiveInfoList[len(h.archiveInfoList)-1]
+	margin := int64(h.maxRetention) + 4*int64(last.secondsPerPoint)
+	if t != 0 {
+		d := int64(now) - int64(t)
+		vrt.Assume(d <= 0x7fffffff-margin)
+		vrt.Assume(d >= -(0x7fffffff - margin))
+	}
 }
 
 // vrtAssumeInv: the per-archive state invariant: base 0 (never written) or aligned base and
@@ -120,4 +156,74 @@ func vrtAssumeInv(h *Header, sl *vrtSlots) {
 			}
 		}
 	}
+}
+
+// vrtInvImage builds a file image satisfying the state invariant by construction (DESIGN
+// section 2: aligned instants are presented multiplicatively): each archive is either never
+// written (all slots zero) or has base B = kB*S != 0 and every slot j holds 0 or the time
+// B + (j + N*lap_j)*S of some lap of the ring; values are arbitrary bit patterns.
+// All stored times lie within T1 distance of the clock.
+func vrtInvImage(h *Header, tag string, now Timestamp) ([]byte, *vrtSlots) {
+	img := h.AppendTo(nil)
+	sl := &vrtSlots{}
+	for ai, a := range h.archiveInfoList {
+		n := int(a.numberOfPoints)
+		s := int64(a.secondsPerPoint)
+		ts := make([]Timestamp, n)
+		vs := make([]Value, n)
+		written := vrt.Choose(vrt.N(tag+"written", ai), 2) == 1
+		var b int64
+		if written {
+			kb := vrt.U32(vrt.N(tag+"kB", ai))
+			b = int64(kb) * s
+			vrt.Assume(b > 0)
+			vrt.Assume(b <= 0xffffffff)
+			vrtAssumeNear(h, now, Timestamp(b))
+		}
+		for j := 0; j < n; j++ {
+			vs[j] = Value(vrt.F64(vrt.N(vrt.N(tag+"V", ai), j)))
+			if !written {
+				ts[j] = 0
+			} else if j == 0 {
+				ts[j] = Timestamp(b)
+			} else {
+				lap := int64(vrt.I32(vrt.N(vrt.N(tag+"lap", ai), j)))
+				empty := vrt.Bool(vrt.N(vrt.N(tag+"empty", ai), j))
+				t := b + (int64(j)+int64(n)*lap)*s
+				vrt.Assume(t > 0)
+				vrt.Assume(t <= 0xffffffff)
+				vrtAssumeNear(h, now, Timestamp(t))
+				ts[j] = Timestamp(vrt.IteU32(empty, 0, uint32(t)))
+			}
+			p := Point{Time: ts[j], Value: vs[j]}
+			img = p.AppendTo(img)
+		}
+		sl.t = append(sl.t, ts)
+		sl.v = append(sl.v, vs)
+	}
+	return img, sl
+}
+
+// vrtInstant: an arbitrary uint32 instant presented multiplicatively with respect to the
+// layout's step chain (DESIGN section 2): t = k*S_top + sum d_i*S_i + m with 0 <= d_i < r_i,
+// 0 <= m < S_0, so that alignment to any archive step is a syntactic operation.
+func vrtInstant(h *Header, name string) Timestamp {
+	al := h.archiveInfoList
+	top := len(al) - 1
+	k := vrt.U32(name + "_k")
+	t := int64(k) * int64(al[top].secondsPerPoint)
+	for i := top - 1; i >= 0; i-- {
+		r := int64(al[i+1].secondsPerPoint / al[i].secondsPerPoint)
+		d := vrt.U32(vrt.N(name+"_d", i))
+		vrt.Assume(int64(d) < r)
+		t += int64(d) * int64(al[i].secondsPerPoint)
+	}
+	s0 := int64(al[0].secondsPerPoint)
+	if s0 > 1 {
+		m := vrt.U32(name + "_m")
+		vrt.Assume(int64(m) < s0)
+		t += int64(m)
+	}
+	vrt.Assume(t <= 0xffffffff)
+	return Timestamp(t)
 }
